@@ -59,12 +59,13 @@ pub open spec fn buckets_wf(w: World) -> bool {
 }
 
 /// every stored bucket has at most ITEMS_IN_BUCKET items (so an item index never reaches into the id range of the
-/// next bucket) — the domain on which the `@trusted` contract of `owner_of` is stated; implied by `buckets_wf`
+/// next bucket) — the domain on which the second clause of the `owner_of` contract is stated; implied by `buckets_wf`
 pub open spec fn buckets_le(w: World) -> bool {
     forall|i: u32| (#[trigger] bucket_of(w, i)).is_some() ==> bucket_of(w, i).unwrap().len() <= 100
 }
 
-// ---- specification of the search functions (the two `@trusted` contracts; discharged by Kani, bounded) ----
+// ---- specification of the search functions (proved in Verus on the loops translator rule T17 makes of the iterator
+// chains; kani/consec cross-checks the verbatim text, bounded) ----
 /// `find_bit_in_item`: first position p >= start (MSB-first) whose bit is set
 pub open spec fn fbi(num: u32, start: int) -> Option<int>
     decreases 32 - start
